@@ -53,6 +53,54 @@ class UserStop(StopIteration):
         self.code = code
 
 
+class UserRuntime(RuntimeError):
+    def __init__(self, code):
+        super().__init__(code)
+        self.code = code
+
+
+class UserAttr(AttributeError):
+    def __init__(self, code):
+        super().__init__(code)
+        self.code = code
+
+
+class UserKey(KeyError):
+    def __init__(self, code):
+        super().__init__(code)
+        self.code = code
+
+
+class UserType(TypeError):
+    def __init__(self, code):
+        super().__init__(code)
+        self.code = code
+
+
+class UserNotImpl(NotImplementedError):
+    def __init__(self, code):
+        super().__init__(code)
+        self.code = code
+
+
+# exceptions a callback may raise that derive from classes Python or asyncio themselves give a meaning to:
+# they must escape like any other exception of a callback
+EXC_CLASSES = {"runtime": UserRuntime, "attr": UserAttr, "key": UserKey, "type": UserType, "notimpl": UserNotImpl}
+
+
+def user_exception(sc, code, sync_only_ok=True):
+    if sc.get("base_exc") and code % 3 == 0:
+        return UserBase(code)
+    if sc.get("user_tna") and code % 4 == 1:
+        return make_user_tna(code)
+    if sc.get("stop_iter") and sync_only_ok and not sc.get("async") and code % 2:
+        return UserStop(code)
+    kinds = sc.get("exc_classes") or []
+    if kinds and code % 2 == 0:
+        return EXC_CLASSES[kinds[code % len(kinds)]](code)
+    return UserErr(code)
+
+
 class Opq:
     """An arbitrary object with a chosen truthiness."""
 
@@ -108,6 +156,8 @@ def cbname(nm):
 def from_json(v):
     if v is None or isinstance(v, (bool, int)):
         return v
+    if "sid" in v:
+        return f"s{v['sid']}"            # (a state value spelled like the id of ANOTHER state)
     if "s" in v:
         return "" if v["s"] == 0 else f"str{v['s']}"
     if "l" in v:
@@ -157,7 +207,8 @@ def sidx(state):
 
 def exn_json(e):
     from statemachine.exceptions import InvalidDefinition, InvalidStateValue, TransitionNotAllowed
-    if isinstance(e, (UserErr, UserStop, UserBase)) or hasattr(e, "code") and type(e).__name__ == "UserTNA":
+    if (isinstance(e, (UserErr, UserStop, UserBase) + tuple(EXC_CLASSES.values()))
+            or hasattr(e, "code") and type(e).__name__ == "UserTNA"):
         return ["u", e.code]
     if isinstance(e, TransitionNotAllowed):
         return ["na", evidx(e.event), sidx(e.state)]
@@ -285,13 +336,25 @@ def _cb(p, kind, k, isg, kw):
                 r = None
             R.log.append(["n", "v", to_json(r)])
         else:
-            if RUN.sc.get("base_exc") and act[1] % 3 == 0:
-                raise UserBase(act[1])
-            if RUN.sc.get("user_tna") and act[1] % 4 == 1:
-                raise make_user_tna(act[1])
-            if RUN.sc.get("stop_iter") and not RUN.sc.get("async") and act[1] % 2:
-                raise UserStop(act[1])
-            raise UserErr(act[1])
+            raise user_exception(RUN.sc, act[1])
+    return from_json(script["r"])
+
+
+def _prop(p, kind, k, obj):
+    """a guard that is a property of its provider (read with getattr, never called): outside the processing of
+    an event it reads as None; inside, its n-th read follows the n-th script (a value, or an exception - for
+    even codes an AttributeError subclass, as a property reaching through a missing attribute raises)"""
+    R = RUN
+    if R is None or not getattr(R, "in_send", False):
+        return None
+    key = (p, kind, k)
+    n = R.count.get((0,) + key, 0)
+    R.count[(0,) + key] = n + 1
+    scripts, dflt = R.tbl.get(key, ([], DEFAULT_SCRIPT))
+    script = scripts[n] if n < len(scripts) else dflt
+    for act in script["a"]:
+        if act[0] == "raise":
+            raise (UserAttr(act[1]) if act[1] % 2 == 0 else UserErr(act[1]))
     return from_json(script["r"])
 
 
@@ -348,11 +411,7 @@ async def _acb_body(R, script, m):
         elif act[0] == "yield":
             await asyncio.sleep(0)
         else:
-            if RUN.sc.get("base_exc") and act[1] % 3 == 0:
-                raise UserBase(act[1])
-            if RUN.sc.get("user_tna") and act[1] % 4 == 1:
-                raise make_user_tna(act[1])
-            raise UserErr(act[1])
+            raise user_exception(RUN.sc, act[1], sync_only_ok=False)
     return from_json(script["r"])
 
 
@@ -384,9 +443,10 @@ def render_source(sc):
     gn = guard_names(sc)
     acoros = {tuple(x) for x in sc.get("async", [])}
     out = ["from statemachine import State, StateMachine",
-           "from harness.eng import _cb, _acb, _Aw", ""]
+           "from harness.eng import _cb, _acb, _Aw, _prop", ""]
 
     inst = []
+    hooks = []
     wrapped_ = {tuple(x) for x in sc.get("wrapped_coros", [])}
 
     def methods(p, attrs, ind="    "):
@@ -394,6 +454,12 @@ def render_source(sc):
         for nm in attrs:
             kind, k = nm
             isg = tuple(nm) in gn
+            if kind == 0 and k >= 500 and sc.get("prop_guards"):
+                ls.append(f"{ind}{cbname(nm)} = property(lambda self: _prop({p}, {kind}, {k}, self))      # a guard that is a property")
+                continue
+            if p == 0 and [kind, k] in (sc.get("inst_hooks") or []):
+                hooks.append(nm)              # set on the instance by __init__ (not an attribute of the class)
+                continue
             if kind == 0 and k >= 500:
                 if p == 0 and sc.get("inst_attrs"):
                     inst.append(cbname(nm))       # exists on the instance only (set in __init__)
@@ -478,8 +544,11 @@ def render_source(sc):
     used_events = sorted({e for t in sc["trans"] for e in t["ev"]})
     if style == "obj":
         imports.add("Event")
-        for e in used_events:
-            body.append(f"    {evname(e)} = Event()")
+        ev_lines = [f"    {evname(e)} = Event()" for e in used_events]
+        if sc.get("events_first") and sstyle == "attr":
+            body[0:0] = ev_lines           # the Event() attributes come before the State attributes
+        else:
+            body += ev_lines
 
     def kwargs_of(t):
         args = []
@@ -487,6 +556,10 @@ def render_source(sc):
             args.append("event=" + repr(" ".join(evname(e) for e in t["ev"])))
         elif style == "list":
             args.append("event=" + repr([evname(e) for e in t["ev"]]))
+        elif style == "list_spaced":
+            # a list whose first item names two events, separated by a space
+            names_ = [evname(e) for e in t["ev"]]
+            args.append("event=" + repr([" ".join(names_[:2])] + names_[2:]))
         elif style == "obj":
             args.append("event=[" + ", ".join(evname(e) for e in t["ev"]) + "]")
         if t["int"]:
@@ -600,10 +673,17 @@ def render_source(sc):
                 body.append(f"    {evname(e)} = " + " | ".join(via_attr))
         if any(mixed):
             body.append("    del " + ", ".join(f"tr{j}" for j in range(len(trs)) if j in heads and mixed[j]))
+    alias = bool(sc.get("alias_inherit")) and style == "assign" and not decor_ev and not sc.get("any_render")
+    if alias:
+        inherit = True
     if style == "assign":
         # event attributes in index order: `go = tr0 | tr3`, then drop the helper names
         for e in used_events:
             tl_ = " | ".join(f"tr{j}" for j, t in enumerate(trs) if e in t["ev"])
+            if alias:
+                # the base class declares the event under another name; the machine class gives it its name
+                body.append(f"    x_{evname(e)} = {tl_}")
+                continue
             if decor_ev and decor_ev[0] == e:
                 # the event is declared by decorating its `on` action with the transition list
                 p_, (kind_, k_) = 0, decor_ev[1]
@@ -644,7 +724,11 @@ def render_source(sc):
         out += body
         out.append("")
         out.append("class M(Base):")
-        out.append("    pass")
+        if alias:
+            for e in used_events:
+                out.append(f"    {evname(e)} = Base.x_{evname(e)}      # an inherited event under a new name")
+        else:
+            out.append("    pass")
     else:
         out.append("class M(StateMachine):")
         out += body
@@ -652,10 +736,19 @@ def render_source(sc):
                      | ({tuple(decor_evobj[2])} if decor_evobj else set())
                      | {tuple(nm) for _i, _g, nm in state_decor} | callables_)
     out += methods(0, [nm for nm in sc["provs"][0] if tuple(nm) not in decor_defined])
-    if inst:
-        out.append("    def __init__(self, *a, **k):")
+    if inst or hooks:
+        out.append("    def __init__(self, *a, hooks=True, **k):")
         for name in inst:
             out.append(f"        self.{name} = None      # a per-instance attribute used as guard")
+        if hooks:
+            out.append("        if hooks:        # optional per-instance callbacks, assigned before the machine is set up")
+        for nm in hooks:
+            kind, k = nm
+            if (0, kind, k) in acoros:
+                out.append(f"            async def af_{cbname(nm)}(**kw): return await _acb(0, {kind}, {k}, False, kw)")
+                out.append(f"            self.{cbname(nm)} = af_{cbname(nm)}")
+            else:
+                out.append(f"            self.{cbname(nm)} = lambda **kw: _cb(0, {kind}, {k}, False, kw)")
         out.append("        super().__init__(*a, **k)")
     if sc.get("falsy_machine"):
         out.append("    def __len__(self): return 0      # a machine that evaluates as false")
@@ -751,8 +844,41 @@ def render_source(sc):
         else:       # value-object listeners: distinct objects that compare (and hash) equal
             out.append(f"    _grp = {grp}")
             out.append("    def __eq__(self, other): return getattr(other, '_grp', None) == self._grp")
-            out.append("    def __hash__(self): return hash(self._grp)")
+            out.append("    def __hash__(self): return hash(self._grp)" if grp != 2 else
+                       "    __hash__ = None      # (like a dataclass with eq=True that is not frozen)")
         out += methods(p, sc["provs"][p])
+    if sc.get("sig_attr"):
+        # every callback function carries an explicit __signature__ (as signature-preserving decorators and
+        # mock spies leave behind)
+        out.append("")
+        out.append("import inspect as _inspect")
+        out.append("for _cls in [M, Mdl] + [v for k, v in list(globals().items()) if k.startswith('L') and isinstance(v, type)]:")
+        out.append("    for _n, _f in list(vars(_cls).items()):")
+        out.append("        if _inspect.isfunction(_f) and not _n.startswith('__'):")
+        out.append("            _f.__signature__ = _inspect.signature(_f)")
+    # H: twins of the model / listener classes whose callbacks are all plain functions (or all coroutine
+    # functions): a decoy instance of M over them is created first
+    twin = sc.get("twin_decoy")
+    if twin:
+        def tmethods(p, attrs):
+            ls = []
+            for nm in attrs:
+                kind, k = nm
+                if kind == 0 and k >= 500:
+                    ls.append(f"    {cbname(nm)} = None")
+                elif twin == "coro":
+                    ls.append(f"    async def {cbname(nm)}(self, **kw): return await _acb({p}, {kind}, {k}, {tuple(nm) in gn}, kw)")
+                else:
+                    ls.append(f"    def {cbname(nm)}(self, **kw): return _cb({p}, {kind}, {k}, {tuple(nm) in gn}, kw)")
+            return ls or ["    pass"]
+        out.append("")
+        out.append("class MdlTwin:")
+        out.append("    def __init__(self): self.state = None")
+        out += tmethods(1, sc["provs"][1])
+        for p in range(2, len(sc["provs"])):
+            out.append(f"class L{p}Twin:")
+            out += tmethods(p, sc["provs"][p])
+        out.append("TWINS = [" + ", ".join(f"L{p}Twin" for p in range(2, len(sc["provs"])) if p not in set(sc.get("late", []))) + "]")
     out.append("")
     late = set(sc.get("late", []))
     out.append(f"LISTENERS = [{', '.join(f'L{p}()' for p in range(2, len(sc['provs'])) if p not in late)}]")
@@ -818,6 +944,21 @@ def call_style(sm, style, name, tag, ns):
     if style == "bound":                      # a trigger bound onto another object
         other = _Other()
         sm.bind_events_to(other)
+        if hasattr(other, name):
+            return getattr(other, name)(tag=tag)
+        return sm.send(name, tag=tag)
+    if style == "bound2":                     # ... onto an object that another machine binds its triggers onto afterwards
+        other = _Other()
+        sm.bind_events_to(other)
+        with warnings.catch_warnings():
+            warnings.simplefilter("ignore")     # (the second binding warns about the names already taken and skips them)
+            mdl = ns["Mdl"]()
+            RUN.tags[id(mdl)] = 99
+            try:
+                second = ns["construct"](mdl, [type(x)() for x in ns["LISTENERS"]])
+                second.bind_events_to(other)
+            except Exception:  # noqa: BLE001 - the other instance's own failures are not this machine's business
+                pass
         if hasattr(other, name):
             return getattr(other, name)(tag=tag)
         return sm.send(name, tag=tag)
@@ -957,6 +1098,8 @@ def run_impl(sc):
                 objs.update({p: o for p, o in zip(cons, box["listeners"])})
                 objs.update(ns["LATE"])
                 for p, kind, k, _scripts, dflt in sc["tbl"]:
+                    if sc.get("prop_guards"):
+                        break
                     if kind == 0 and k >= 500 and objs.get(p) is not None:
                         setattr(objs[p], cbname([kind, k]), from_json(dflt["r"]))
 
@@ -1002,6 +1145,13 @@ def run_impl(sc):
                         with warnings.catch_warnings():
                             warnings.simplefilter("ignore")
                             kw = {} if start is None else {"start_value": state_value(sc, start)}
+                            if sc.get("inst_hooks"):
+                                kw["hooks"] = False        # this instance has none of the optional callbacks
+                            if sc.get("twin_decoy"):
+                                # ... and its model and listeners are of the twin classes (other kind of functions)
+                                mdl = ns["MdlTwin"]()
+                                R.tags[id(mdl)] = 99
+                                kw["listeners"] = [c() for c in ns["TWINS"]]
                             d = ns["M"](mdl, **kw)
                             decoys.append((mdl, d))
                             if not sc.get("async") and driver != "loop":
@@ -1017,6 +1167,7 @@ def run_impl(sc):
                 R.log = []
                 w0 = getattr(box["model"], "state_writes", 0)
                 had_state = getattr(box["model"], "state", None) is not None
+                R.in_send = op[0] in ("send", "call")       # (property guards answer only while an event is processed)
                 try:
                     if driver == "threads":
                         r = workers.call(len(obs) % 3, lambda op=op: step(op))
@@ -1027,6 +1178,7 @@ def run_impl(sc):
                     out = ["v", to_json(r)]
                 except (Exception, UserBase) as e:  # noqa: BLE001
                     out = ["x", exn_json(e)]
+                R.in_send = False
                 sm = box["sm"]
                 fv = getattr(box["model"], "state", None)
                 fst = R.cls.states_map.get(fv) if fv is not None else None
